@@ -344,7 +344,7 @@ func (c *tunnelChannel) allocateStream(ctx context.Context, clientStreams, serve
 		return nil, nil, errors.New("channel is closed")
 	}
 
-	if c.lastStreamID < 0 {
+	if c.lastStreamID == math.MaxInt64 {
 		return nil, nil, errors.New("all stream IDs exhausted (must create a new channel)")
 	}
 
